@@ -27,7 +27,7 @@ import z3
 from . import sym
 from .sym import SymInt, SymBool, EngineError, branch, mk, mks, And, cur
 from .core import StopPath
-from .lists import SymRange, SeqList, ArrList, EnumView
+from .lists import SymRange, SeqList, ArrList, EnumView, AbsList
 
 
 def loop_ordinal(func, node):
@@ -161,7 +161,7 @@ class Verifier:
                     raise EngineError("loop cut on stepped range")
                 a, b = it.start, it.stop
                 elem = lambda i: i
-            elif isinstance(it, (SeqList, ArrList, EnumView)):
+            elif isinstance(it, (SeqList, ArrList, EnumView, AbsList)):
                 a, b = 0, it.length()
                 elem = lambda i: it.getitem(interp, i)
             else:
@@ -217,7 +217,7 @@ class Verifier:
                     self.facts.append(item)
                 else:
                     p.assume(item[1])
-            if not isinstance(it, (SeqList, ArrList, EnumView)):
+            if not isinstance(it, (SeqList, ArrList, EnumView, AbsList)):
                 interp.assign(node.target, elem(b - 1), frame)
             return (None,)
         # ---------------------------------------------------------------- while loops
